@@ -611,6 +611,54 @@ func (c *Check) notificationFromErr(rule string) {
 			c.require(okG, rule, p.Name(walk), "first-wins: "+key, p.InstrPos(in), "the earliest error of a class is kept (assignment only while the slot is nil)")
 		})
 		c.floor(rule, n, 4, "class slots assigned in the tree walk")
+		// the walk descends into both kinds of children: the single error of
+		// Unwrap() error (fmt.Errorf("%w")) and every error of Unwrap() []error
+		// (errors.Join); a recursive call is a call of the walker itself or
+		// through the variable that holds it
+		isRec := func(cl *ssa.Call) bool {
+			if p.staticLocalCallee(cl) == walk {
+				return true
+			}
+			if ld, ok := cl.Call.Value.(*ssa.UnOp); ok {
+				if fv, ok := ld.X.(*ssa.FreeVar); ok {
+					// the cell holding the closure: bound to walk's own MakeClosure
+					par := walk.Parent()
+					if par != nil {
+						for _, b := range par.Blocks {
+							for _, in := range b.Instrs {
+								if st, ok := in.(*ssa.Store); ok {
+									if mc, ok := st.Val.(*ssa.MakeClosure); ok && mc.Fn == ssa.Value(walk) {
+										for i, bnd := range mc.Bindings {
+											if bnd == st.Addr && i < len(walk.FreeVars) && walk.FreeVars[i] == fv {
+												return true
+											}
+										}
+									}
+								}
+							}
+						}
+					}
+				}
+			}
+			return false
+		}
+		single, multi := false, false
+		ownInstrs(walk, func(in ssa.Instruction) {
+			cl, ok := in.(*ssa.Call)
+			if !ok || !isRec(cl) || len(cl.Call.Args) == 0 {
+				return
+			}
+			arg := cl.Call.Args[len(cl.Call.Args)-1]
+			if inv, ok := arg.(*ssa.Call); ok && inv.Call.IsInvoke() && inv.Call.Method.Name() == "Unwrap" {
+				single = true
+				return
+			}
+			if inLoopLocal(cl.Block()) && everyIteration(cl) {
+				multi = true
+			}
+		})
+		c.require(single && multi, rule, p.Name(walk), "descends into wrapped and joined errors", p.Pos(walk.Pos()),
+			"the walker calls itself on x.Unwrap() and, for every element, on x.Unwrap() []error")
 		// after a *Notification is found nothing below it is visited
 		for _, blk := range walk.Blocks {
 			for _, in := range blk.Instrs {
